@@ -40,8 +40,8 @@ def configs(tier, seed):
   return cfgs
 
 
-def gen_workload(r, lag):
-  nm = r.randint(1, 4)
+def gen_workload(r, lag, nm=None):
+  nm = nm or r.randint(1, 4)
   metrics = ['s%d' % i for i in range(nm)]
   ops = []
   n = r.randint(2, 8)
@@ -76,8 +76,11 @@ def run_config(cfg, res):
     ops = gen_workload(r, cfg['lag'])
     seen = set()
 
-    def one(policy, desc):
-      h = world.run(ops, ('loop',), policy=policy, timeout=60, drain_rest=False)
+    def one(policy, desc, damaged=None):
+      h = world.run(ops, ('loop',), policy=policy, timeout=60, drain_rest=False, fault_metrics=damaged)
+      if damaged:
+        res.count('schedules_with_damaged_files')
+        desc = '%s damaged=%r' % (desc, sorted(damaged))
       res.count('schedules_executed')
       if h.sched_error is not None:
         res.inconc('%s: %s' % (type(h.sched_error).__name__, h.sched_error))
@@ -127,6 +130,25 @@ def run_config(cfg, res):
     for _ in range(30 if cfg['tier'] == 'quick' else 100):
       one(S.RandomPolicy(gen.rng(r.random(), 'rp'), p=r.choice([0.02, 0.1, 0.3]), q=r.choice([0.2, 0.5])), 'random')
     res.sample(dict(cfg=cfg['name'], workload=ops), cap=2)
+    # damaged files: every write to some of the metrics raises, in the last pass as in every other; each of those batches
+    # is accounted for as errored, and everything else that was accepted is still written out
+    ops = gen_workload(r, cfg['lag'], nm=r.randint(3, 6))
+    seen = set()
+    metrics = sorted(set(o[1] for o in ops if o[0] == 'store'))
+    # a burst over all metrics while the writer sleeps between two passes, then the stop: the last pass meets them all
+    burst = list(metrics)
+    r.shuffle(burst)
+    ops = ops[:-1] + [('sleep', r.choice([0.3, 1.2, 2.4]))] + [('store', m, 1000001) for m in burst] + [('stop',)]
+    excs = ['IOError', 'OSError', 'ValueError', 'KeyError']
+    for k in range(6 if cfg['tier'] == 'quick' else 20):
+      dm = {m: excs[(k + i) % 4] for i, m in enumerate(metrics) if r.random() < (0.9 if k % 2 else 0.5)}
+      if not dm:
+        continue
+      hd = one(S.DeviationPolicy({}), 'baseline', dm)
+      for d in sorted(set(r.randrange(0, hd.decisions + 2) for _ in range(6 if cfg['tier'] == 'quick' else 25))):
+        one(S.DeviationPolicy({d: 1}), 'preempt@%d' % d, dm)
+      for _ in range(4 if cfg['tier'] == 'quick' else 12):
+        one(S.RandomPolicy(gen.rng(r.random(), 'rp'), p=r.choice([0.02, 0.1, 0.3]), q=r.choice([0.2, 0.5])), 'random', dm)
 
 
 def finalize(merged, tier):
